@@ -4,6 +4,8 @@ import TrionModel.Driver.Parse
 import TrionModel.Driver.Uf2
 import TrionModel.Driver.Trias
 import TrionModel.Driver.Lex
+import TrionModel.Driver.Map
+import TrionModel.Driver.Seg
 /-! `trion-model`: one request per line on stdin, one reply per line on stdout.
 The first word selects the component; every request is self-contained (pure). -/
 open Trion.Driver
@@ -15,6 +17,8 @@ def dispatch : List String → String
   | "uf2" :: r => Uf2.handle r
   | "trias" :: r => Trias.handle r
   | "lex" :: r => Lex.handle r
+  | "map" :: r => Map.handle r
+  | "seg" :: r => Seg.handle r
   | ["ping"] => "pong"
   | _ => "bad-op"
 
